@@ -148,8 +148,29 @@ for _p, _t in ADD2.items():
     ADD[_p]['text'] = (ADD[_p]['text'] + ' ' + _t).strip()
     if not ADD[_p]['technique']:
         ADD[_p]['technique'] = 'sibling (mirror-function) agreement'
+ADD3 = {
+ 'C01': ('interprocedural escape analysis of caller-owned byte buffers (returns-alias / keeps / returns-fresh summaries to a fixpoint)', 'Also: gap handling is safe without a chunk; a pointer into a caller\'s bytes (every (bytes, length) parameter, the data field of data records, the current chunk) is never stored in a structure or container that outlives the call, except at three reviewed sites and in the setters whose caller chooses the allocation strategy (118 buffers followed).'),
+ 'C02': ('mined co-update invariants (fields written together at every site)', 'Also: every server personality fills all four parser slots; the base64 decoder step and carry change together.'),
+ 'C06': ('mined co-update invariants (fields written together at every site)', 'Also: the stream offset moves wherever the read offset of the same direction advances and vice versa; a body data record gets transaction and length together.'),
+ 'C07': ('mined co-update invariants (fields written together at every site)', 'Also: request-side decompression is set up only when enabled and torn down with the transaction; the zlib input and output windows are always set as (pointer, size) pairs.'),
+ 'C08': ('', 'Also: the token loop of the encoding list is bounded on every iteration.'),
+ 'C09': ('error-discipline rule (majority-checked status functions; the minority read and tabled)', 'Also: for every status-returning function whose status is acted upon at three or more call sites (133 sites), no site drops it - as an expression statement or through a variable that is overwritten or abandoned unread - except 7 reviewed sites.'),
+ 'C10': ('', 'Also: reclamation of finished transactions does not depend on where the response cursor stands.'),
+ 'C13': ('', 'Also: the window/raw rules of the authority split; userinfo split at the first colon.'),
+ 'C14': ('', 'Also: at end of stream the last part is not finalised with a set-aside CR still owed; a part whose type has been decided is in data mode on every path to the exit, error exits included.'),
+ 'C15': ('mined co-update invariants (fields written together at every site)', 'Also: a parameter record gets value, name, source and parser id together wherever it is made.'),
+ 'C17': ('', 'Also: the integer parser accepts only at the end of the text.'),
+ 'C18': ('interprocedural release summaries (RELEASES, RELEASES-ON-FAILURE)', 'Also: a failed call leaves its arguments to the caller wherever the caller releases them on the failure branch (28 sites); the recorded capacity of a buffer changes only after realloc succeeded (6 sites incl. the vendored LZMA decoder; reported D32, repaired); the LZMA decoder is marked ready only on the success edge of its lazy allocation.'),
+ 'C19': ('', 'Also: private configuration copies deep-copy every hook and are destroyed with their owner.'),
+}
+for _p, (_tech, _t) in ADD3.items():
+    ADD.setdefault(_p, dict(technique='', text=''))
+    ADD[_p]['text'] = (ADD[_p]['text'] + ' ' + _t).strip()
+    if _tech:
+        ADD[_p]['technique'] = (ADD[_p]['technique'] + '; ' + _tech).strip('; ')
 for _p, _a in ADD.items():
-    CHECKS[_p]['technique'] += '; ' + _a['technique']
+    if _a['technique']:
+        CHECKS[_p]['technique'] += '; ' + _a['technique']
     CHECKS[_p]['text'] += ' ' + _a['text']
 
 def main():
